@@ -161,6 +161,16 @@ def check(run: Run) -> None:
         n_stop += 1
         run.check(set(tok_types) <= {"NEWLINE", "NAME"} and "NEWLINE" in tok_types, "C03.R6", fi_, st, "scan stops early only at a logical NEWLINE", f"the same-line scan stops at token type(s) {sorted(set(tok_types))}: a physical line break (NL) inside brackets ends candidate collection, so lambdas later in the same wrapped expression are never candidates and a neighbour can be recorded silently", "tokenize.NEWLINE")
     run.floor("C03.R6", n_stop, 1, "early stop in find_identifier")
+    # every caller hands a list of identifiers (a bare string would make `t.string in identifier` a substring test)
+    n_fi_calls = 0
+    for f_ in [x for x in m.funcs.values() if x.module.name == mod]:
+        for c in calls_in(f_):
+            if isinstance(c.func, ast.Attribute) and c.func.attr == "find_identifier" and c.args:
+                n_fi_calls += 1
+                a0 = c.args[0]
+                ok = isinstance(a0, (ast.List, ast.Tuple, ast.Set)) and all(isinstance(e, ast.Constant) and isinstance(e.value, str) for e in a0.elts)
+                run.check(ok, "C03.R6", f_, stmt_of(c), "find_identifier receives a list of identifier strings", f"find_identifier is called with {ast.unparse(a0)}, not a list of identifiers: with a bare string the membership test becomes a substring test, so short names such as 'a' or 'b' are taken for the start of a lambda and the real lambda is filed under the wrong caller", '["lambda"]')
+    run.floor("C03.R6", n_fi_calls, 2, "find_identifier call sites")
     # name match: returns (previous NAME token, this token) when t.string in identifier
     for s, n in ffa.returns():
         if _returns_found(s):
